@@ -650,6 +650,10 @@ def run(chk, tier, scale=1.0):
                 "place of every client's script (solo reference with the reloads at the same places); scripts may re-use their id while a query of the previous holder is unanswered "
                 "and then receive the late answer to the previous holder; sets of 18-30 clients drive the serials into two hex digits; "
                 "a case = one interleaving of one script set (distinct by hash); non-trivial = conversations were compared")
+    # bursts: hundreds of clients given the same lines in one write (half of the runs over a shared socket, the reader falling
+    # behind): what the daemon says about each of them is the same, whoever came before or after
+    pcommon.fold_bursts(chk, "C07", tier, scale, b, 971)
+    chk.require("burst_conversations_compared", 500 * min(1.0, scale))
     chk.require("distinct_interleavings", 300 * min(1.0, scale))
     chk.require("client_conversations_compared", 1000 * min(1.0, scale))
     chk.require("audits", 100 * min(1.0, scale))
@@ -671,6 +675,8 @@ def _worker_wrap(a):
 def replay(chk, rep):
     b = prun.build_daemon("c07-replay")
     w = rep["witness"]
+    if w.get("burst"):
+        return pcommon.replay_burst(chk, w, "C07", "c07-replay")
     if w.get("timer_neighbour"):
         r = timer_neighbour_worker(dict(build=b, seed=w["seed"], gap=w["gap"], neighbours=w["neighbours"]))
         for v in r["viol"]:
